@@ -30,7 +30,13 @@ func (r rateSpec) perToken() time.Duration { return r.period / time.Duration(r.a
 type tlim struct {
 	lim     *ratelimit.TokenLimiter
 	handled int
+	h       http.Handler
+	served  int
 }
+
+// rewrapEvery > 0: the chain is re-assembled around the limiter (Wrap with the same handler) before every n-th
+// request; quotas are unaffected by that
+var rewrapEvery int
 
 type tlResult struct {
 	status   int
@@ -77,6 +83,7 @@ func drawRateSource(rt *rapid.T) {
 	viaExtractor = rapid.Bool().Draw(rt, "rates-via-extractor")
 	slowRateLogger = rapid.IntRange(0, 2).Draw(rt, "slow-logger") == 0
 	ownErrHandler = rapid.IntRange(0, 2).Draw(rt, "own-error-handler") == 0
+	rewrapEvery = rapid.SampledFrom([]int{0, 0, 3, 7}).Draw(rt, "rewrap-every")
 }
 
 func newTLim(rt *rapid.T, rates []rateSpec, capacity int) *tlim {
@@ -96,6 +103,7 @@ func newTLim(rt *rapid.T, rates []rateSpec, capacity int) *tlim {
 		w.Header().Set("X-Handled", "1") // per request: several may be in flight at once
 		w.WriteHeader(http.StatusOK)
 	})
+	l.h = h
 	var opts []ratelimit.TokenLimiterOption
 	if capacity > 0 {
 		opts = append(opts, ratelimit.Capacity(capacity))
@@ -159,6 +167,10 @@ func newTLim(rt *rapid.T, rates []rateSpec, capacity int) *tlim {
 }
 
 func (l *tlim) do(src string, amount int64) tlResult {
+	l.served++
+	if rewrapEvery > 0 && l.served%rewrapEvery == 0 && (simrt.Active() == nil || simrt.Active().Current() == nil) {
+		l.lim.Wrap(l.h)
+	}
 	req := newRequest(nil, src)
 	req.Header.Set("Amount", strconv.FormatInt(amount, 10))
 	rec := simkit.NewRecorder()
